@@ -342,7 +342,9 @@ def run_property(prop, tier="quick", seed=0, level="proof", only=None, jobs=None
         cov["explanation"] = explanation
     ev = dict(property_id=prop, tier=tier, seed=seed, level=level, coverage=cov,
               assumptions=trusted, wall_s=round(wall, 2), violations=len(violations))
-    json.dump(ev, open(os.path.join(OUT, "evidence", f"{prop}.json"), "w"), indent=1, default=str)
+    # a run restricted with --only covers part of the property: it must not replace the evidence of a complete run
+    evname = f"{prop}.json" if only is None else f".partial_{prop}.json"
+    json.dump(ev, open(os.path.join(OUT, "evidence", evname), "w"), indent=1, default=str)
 
     status = 0
     if violations:
